@@ -1063,10 +1063,27 @@ class Engine(object):
                 self.inconclusive.append({'check': 'unsupported', 'config': self.config_name,
                                           'why': str(e)[:300]})
                 outcome = ('unsupported', str(e))
-            except Exception as e:   # escaped from the code under test
+            except Exception as e:   # escaped from the code under test -- or from the harness itself
                 import traceback
                 tb = traceback.extract_tb(e.__traceback__)
                 where = '%s:%d' % (tb[-1].filename, tb[-1].lineno) if tb else '?'
+                # innermost frame that is not engine code decides whose exception this is: raised while
+                # artap code was running -> candidate violation; raised by harness code (e.g. an internal
+                # function was renamed by a refactoring) -> harness error, never a VIOLATION
+                origin = None
+                for fr in reversed(tb):
+                    fn = fr.filename
+                    if '/symx/' in fn or fn.startswith('<'):
+                        continue
+                    origin = fn
+                    break
+                if origin is not None and ('/props/' in origin and '/artap/' not in origin):
+                    self.inconclusive.append({'check': 'harness-exception', 'config': self.config_name,
+                                              'why': '%s: %s at %s' % (type(e).__name__, str(e)[:200], where)})
+                    outcome = ('harness-exc', e)
+                    self.stats.paths += 1
+                    self.lemmas += ctx.lemma_count
+                    return ctx, outcome
                 m, rob = ctx.final_model()
                 self.candidates.append({
                     'check': 'uncaught-exception:%s' % type(e).__name__, 'config': self.config_name,
